@@ -9,7 +9,8 @@ CONTROLS = {
     "Apply": [("Apply.mc.cfg", {"Bug": '"append"'}, "CurriedEqualsDirect")],
     "Bind": [("Bind.mc.cfg", {"Bug": '"drop_chain"'}, "ContractHolds"),
              ("Bind.mc.cfg", {"Bug": '"flat_bind_plain"'}, "ContractHolds"),
-             ("Bind.names.cfg", {"AsShipped_D10": "TRUE"}, "ContractHolds")],
+             ("Bind.names.cfg", {"AsShipped_D10": "TRUE"}, "ContractHolds"),
+             ("Bind.names.cfg", {"Bug": '"stale_bind_name"'}, "ContractHolds")],
     "BoolOp": [("BoolOp.mc.cfg", {"Bug": '"no_loser_cancel"'}, "ContractHolds"),
                ("BoolOp.mc.cfg", {"Bug": '"or_last_only"'}, "ContractHolds"),
                ("BoolOp.mc2.cfg", {"AsShipped_N1": "TRUE"}, "ContractHolds"),
